@@ -15,42 +15,52 @@
 (***************************************************************************)
 EXTENDS Naturals, TLC
 
-CONSTANT KS
+CONSTANT KS,
+         TrackPrev   \* TRUE: also distinguish "the key of the OTHER family that this object held before"
 
-VARIABLES life, keyed, pos
-vars == <<life, keyed, pos>>
+VARIABLES life, keyed, pos, prev
+vars == <<life, keyed, pos, prev>>
 
 (* life: zeroed | live | failed | dead;  keyed: <<family, size>> with family   *)
 (* none | plain | tweaked;  pos: "b" block boundary, "m" middle of a block     *)
+(* prev: the key (family, size) that was replaced by a key of the other family most      *)
+(* recently - handing those very bytes back (class "previous") is where a "same key as    *)
+(* last time" shortcut that the other family's functions forget to invalidate goes wrong  *)
 NoKey == <<"none", 0>>
-Init == life = "zeroed" /\ keyed = NoKey /\ pos = "b"
+Init == life = "zeroed" /\ keyed = NoKey /\ pos = "b" /\ prev = NoKey
+Replaced(fam) == IF TrackPrev /\ keyed[1] # "none" /\ keyed[1] # fam THEN keyed ELSE prev
 
 Live == life = "live"
 
 DoInit(fail) ==
     /\ life # "live"
     /\ life' = (IF fail THEN "failed" ELSE "live")
-    /\ keyed' = NoKey /\ pos' = "b"
+    /\ keyed' = NoKey /\ pos' = "b" /\ prev' = NoKey
 
 DoCleanup ==
     /\ life' = (IF Live THEN "dead" ELSE life)
     /\ keyed' = (IF Live THEN NoKey ELSE keyed)
     /\ pos' = (IF Live THEN "b" ELSE pos)
+    /\ prev' = (IF Live THEN NoKey ELSE prev)
 
 (* cls: valid (z = size class) | same (the very key bytes that are in force, only when the  *)
 (*      object is keyed in this family) | null | short | long | badrounds (z = 0)            *)
 DoSetKey(cls, z) ==
     /\ cls = "same" => Live /\ keyed[1] = "plain"
-    /\ IF Live /\ cls = "valid" THEN keyed' = <<"plain", z>> /\ pos' = "b"
-       ELSE IF cls = "same" THEN pos' = "b" /\ UNCHANGED keyed
-       ELSE UNCHANGED <<keyed, pos>>
+    /\ cls = "previous" => Live /\ keyed[1] = "tweaked" /\ prev[1] = "plain"
+    /\ IF Live /\ cls = "valid" THEN keyed' = <<"plain", z>> /\ pos' = "b" /\ prev' = Replaced("plain")
+       ELSE IF cls = "same" THEN pos' = "b" /\ UNCHANGED <<keyed, prev>>
+       ELSE IF cls = "previous" THEN keyed' = prev /\ prev' = keyed /\ pos' = "b"
+       ELSE UNCHANGED <<keyed, pos, prev>>
     /\ UNCHANGED life
 
 DoSetTweakedKey(cls, z) ==
     /\ cls = "same" => Live /\ keyed[1] = "tweaked"
-    /\ IF Live /\ cls = "valid" THEN keyed' = <<"tweaked", z>> /\ pos' = "b"
-       ELSE IF cls = "same" THEN pos' = "b" /\ UNCHANGED keyed
-       ELSE UNCHANGED <<keyed, pos>>
+    /\ cls = "previous" => Live /\ keyed[1] = "plain" /\ prev[1] = "tweaked"
+    /\ IF Live /\ cls = "valid" THEN keyed' = <<"tweaked", z>> /\ pos' = "b" /\ prev' = Replaced("tweaked")
+       ELSE IF cls = "same" THEN pos' = "b" /\ UNCHANGED <<keyed, prev>>
+       ELSE IF cls = "previous" THEN keyed' = prev /\ prev' = keyed /\ pos' = "b"
+       ELSE UNCHANGED <<keyed, pos, prev>>
     /\ UNCHANGED life
 
 (* cls: full | same (the value that is already in force, full length) | short | null |   *)
@@ -58,12 +68,12 @@ DoSetTweakedKey(cls, z) ==
 (* object the code applies its incremental update to the plain schedule: modelled)       *)
 DoSetTweak(cls) ==
     /\ IF Live /\ cls \in {"full", "same", "short", "null"} THEN pos' = "b" ELSE UNCHANGED pos
-    /\ UNCHANGED <<life, keyed>>
+    /\ UNCHANGED <<life, keyed, prev>>
 
 (* cls: full | same (the counter value the stream has reached) | short | empty | null | too_long *)
 DoSetCounter(cls) ==
     /\ IF Live /\ cls # "too_long" THEN pos' = "b" ELSE UNCHANGED pos
-    /\ UNCHANGED <<life, keyed>>
+    /\ UNCHANGED <<life, keyed, prev>>
 
 (* cls: zero | part (ends inside a block) | align (ends at a block boundary) |        *)
 (*      long_part | long_align (more than two SIMD batches) | batch (ends exactly at  *)
@@ -73,7 +83,7 @@ DoEncrypt(cls) ==
     /\ IF Live /\ cls \in {"part", "long_part"} THEN pos' = "m"
        ELSE IF Live /\ cls \in {"align", "long_align", "batch"} THEN pos' = "b"
        ELSE UNCHANGED pos
-    /\ UNCHANGED <<life, keyed>>
+    /\ UNCHANGED <<life, keyed, prev>>
 
 Next ==
     \/ \E f \in BOOLEAN : DoInit(f)
@@ -85,6 +95,7 @@ Next ==
     \/ \E c \in {"full", "same", "short", "null", "zero_len", "too_long"} : DoSetTweak(c)
     \/ \E c \in {"full", "short", "empty", "null", "too_long"} : DoSetCounter(c)
     \/ DoSetKey("same", 0) \/ DoSetTweakedKey("same", 0)
+    \/ DoSetKey("previous", 0) \/ DoSetTweakedKey("previous", 0)
     \/ \E c \in {"zero", "part", "align", "long_part", "long_align", "batch", "null_in", "null_out"} : DoEncrypt(c)
 
 Spec == Init /\ [][Next]_vars
